@@ -5,6 +5,10 @@ import os
 from vlib import *
 
 ASSUME = [
+    "PeerId::try_from_multiaddr has no counterpart in the reference crate any more; its oracle is litep2p's own documented "
+    "semantics: Some(p) iff the LAST component of the address is /p2p/p (all layouts of 0..2 /p2p components at the end, "
+    "before /p2p-circuit or before another protocol, same or different ids, in struct, binary and textual form), plus "
+    "'append /p2p/p to any address and read back = p'",
     "the reference implementation is libp2p-identity 0.2.14 (and the multiaddr 0.18.2 crate built on it) as compiled "
     "into the harness; it shares the multihash / unsigned-varint / bs58 crates with litep2p, so a defect common to both "
     "sides in those crates is not visible to the differential check",
@@ -16,8 +20,8 @@ ASSUME = [
     "human-readable form with serde_json",
 ]
 
-GEN_LINES = ["SPECIFICATION Spec", "ACTION_CONSTRAINT Emit", "CHECK_DEADLOCK FALSE"]
-MC_LINES = ["SPECIFICATION Spec", "INVARIANTS DerivedIdParses TableConsistent", "CHECK_DEADLOCK FALSE"]
+GEN_LINES = ["SPECIFICATION Spec", "CONSTANTS", "  FirstP2p = FALSE", "ACTION_CONSTRAINT Emit", "CHECK_DEADLOCK FALSE"]
+MC_LINES = ["SPECIFICATION Spec", "CONSTANTS", "  FirstP2p = FALSE", "INVARIANTS DerivedIdParses TableConsistent MaddrRule", "CHECK_DEADLOCK FALSE"]
 TRACE = ("PeerIdRulesTrace.tla", "PeerIdRulesTrace.cfg")
 
 
@@ -25,9 +29,20 @@ def is_reset(ln):
     return '"e":"reset"' in ln
 
 
+def _expected_maddr(c):
+    if c["n"] == 0:
+        return "none"
+    if c["n"] == 1:
+        return "A" if c["f"] == "last" else "none"
+    return ("A" if c["same"] else "B") if c["s"] == "last" else "none"
+
+
 def classify(seg, idx):
     ev = json.loads(seg[idx - 1])
     c = ev.get("c", {})
+    if ev.get("e") == "maddr":
+        why = "panic" if ev["got"] == "panic" else ("append-round-trip" if ev["got"] == _expected_maddr(c) else "wrong-component")
+        return "maddr-position:%s" % why      # the layout class is in the replay file / `what`
     if ev.get("e") == "derive":
         why = "panic" if ev["got"] == "panic" else ("wrong-hash-choice" if not ev["bytes_ok"] else
                                                     ("reference-differs" if not ev["ref_ok"] else "round-trip"))
@@ -85,18 +100,23 @@ def check(ctx):
         log("NOTE drift: real PeerId deviates from the transcription at %s" % seg[idx - 1][:400])
     vias, verdicts, distinct, panics = {}, {}, set(), 0
     nder = 0
+    nmaddr = 0
     for ln in lines:
         if '"e":"parse"' in ln:
             ev = json.loads(ln)
             vias[ev["via"]] = vias.get(ev["via"], 0) + 1
             verdicts[ev["real"]] = verdicts.get(ev["real"], 0) + 1
             distinct.add(ev["via"] + ":" + ev["input"])
+        elif '"e":"maddr"' in ln:
+            ev = json.loads(ln)
+            nmaddr += 1
+            distinct.add("maddr:" + ev["form"] + ":" + ev["addr"])
         elif '"e":"derive"' in ln:
             ev = json.loads(ln)
             nder += 1
             distinct.add("derive:" + ev["enc"])
     need = {"bytes", "text", "multiaddr", "serde_text", "serde_bin"}
-    if not need <= set(vias) or nder == 0 or verdicts.get("accept", 0) == 0 or verdicts.get("reject", 0) == 0:
+    if not need <= set(vias) or nder == 0 or nmaddr == 0 or verdicts.get("accept", 0) == 0 or verdicts.get("reject", 0) == 0:
         raise ToolError("C18 harness did not exercise every entry point / verdict: %s %s derive=%d" % (vias, verdicts, nder))
     sample = [json.loads(x) for x in lines[1:3]] + [json.loads(x) for x in lines if '"real":"accept"' in x][:2]
     cov = {
@@ -115,6 +135,7 @@ def check(ctx):
         "parse_events_by_entry_point": vias,
         "parse_verdicts": verdicts,
         "derive_events": nder,
+        "multiaddress_position_events": nmaddr,
         "model_runs": [mc],
         "generation": g,
         "harness": summ,
@@ -158,7 +179,13 @@ def selftest(ctx):
     ok &= corrupt(lambda e: e["e"] == "parse" and e["real"] == "reject", lambda e: e.update(real="panic"), "panic")
     ok &= corrupt(lambda e: e["e"] == "derive" and e["c"]["klen"] == "43", lambda e: e.update(got="identity"), "derive-43-identity")
     ok &= corrupt(lambda e: e["e"] == "derive" and e["c"]["klen"] == "42", lambda e: e.update(ref_ok=False), "derive-reference-differs")
-    for fault in ("parse-flip", "derive-flip", "rt-break"):
+    ok &= corrupt(lambda e: e["e"] == "maddr" and e["got"] == "none" and e["c"]["n"] >= 1, lambda e: e.update(got="A"), "maddr-first-component")
+    r = tlc_mc(ctx, "PeerIdRulesMC.tla", write_cfg_noconst(ctx, "negm.cfg", [x.replace("FirstP2p = FALSE", "FirstP2p = TRUE") for x in MC_LINES]),
+               workers=2, expect_violation=True)
+    bad = "is violated" in r["out"]
+    log("selftest negative model (first /p2p component) -> %s" % ("violated (as it must)" if bad else "NOT violated"))
+    ok &= bad
+    for fault in ("parse-flip", "derive-flip", "rt-break", "maddr-first"):
         harness(ctx, "peerid", base + ["--out", ctx.path("f.ndjson")], env={"VERIF_FAULT": fault})
         r = tlc_trace(ctx, TRACE[0], TRACE[1], ctx.path("f.ndjson"))
         log("selftest fault %s -> %s" % (fault, "rejected at line %s" % r if r else "ACCEPTED"))
